@@ -322,6 +322,6 @@ theorem C02_first (env : Env) (all : List Rule) (phase : Nat) (hp : phase ≠ 5)
 
 /-! ## non-vacuity: a deny in phase 1, then every later call returns it -/
 def C02_demoEnv : Env := { op := fun _ _ _ => true, tf := fun _ v => (v, false, false) }
-def C02_deny : Rule := ⟨7, 1, [], [⟨[], none, [], false, []⟩], .deny, 0, 0, [], none, [], false, false, []⟩
+def C02_deny : Rule := ⟨7, 1, [], [⟨[], none, [], false, [], 0⟩], .deny, 0, 0, [], none, [], false, false, []⟩
 example : (runCalls C02_demoEnv [C02_deny] {} [.reqHeaders, .reqBody, .respHeaders, .reqHeaders]).2 =
     [some ⟨7, "deny", 403, []⟩, some ⟨7, "deny", 403, []⟩, some ⟨7, "deny", 403, []⟩, some ⟨7, "deny", 403, []⟩] := by decide
